@@ -153,10 +153,11 @@ def build(desc):
     if need_sym:
         kwargs["symmetry"] = sym
     if kind == "fermionic":
-        if parity(sym, charge):
-            kwargs["oddpos"] = desc.get("oddpos", 1)
-        elif "oddpos" in desc:
-            kwargs["oddpos"] = desc["oddpos"]
+        lbl = desc.get("oddpos", 1)
+        if desc.get("oddpos_dual"):
+            lbl = sr.FermionicOperator(lbl, True)
+        if parity(sym, charge) or "oddpos" in desc:
+            kwargs["oddpos"] = lbl
     x = klass(indices=indices, charge=py_charge(sym, charge), blocks=blocks, **kwargs)
     if kind == "fermionic":
         stored = list(x.blocks)
